@@ -48,6 +48,7 @@ MONITORS = {
     "C06": [M.mon_c06], "C07": [M.mon_c07, M.mon_c07_work], "C08": [M.mon_c08], "C09": [M.mon_c09], "C13": [M.mon_c13],
     "C12": [M.mon_c04, M.mon_c05, M.mon_c03, M.mon_c01, M.mon_c02],
     "C19": [M.mon_c19_runtime],
+    "C20": [M.mon_c20],
 }
 
 
@@ -127,7 +128,7 @@ def abandoned(prog, ex, P, tier):
         s.client("c0", v["pre"], ["A"])
         w.poll_task(s.it, w.tasks[1])
     ops = [tuple(d if x == "d" else x for x in op) for op in v["c1"]]
-    c1 = s.client("c1", ops, ["A"])
+    c1 = s.client("c1", ops, ["A"], keep_refs=(P == "C20"))      # C20 reads the metrics through a kept handle
     if v["c2"]:
         s.client("c2", v["c2"], ["A"])
     s.drop_main("A")
@@ -1136,7 +1137,7 @@ def deadlock_sound(prog, ex, P, tier):
     callee death / cancellation: no deadlock panic, empty graph afterwards; non-actor callers
     are never tracked"""
     shape = pick(ex, ["a-asks-b-then-b-asks-a", "ask-times-out-then-reverse", "callee-dies-then-reverse", "fan-out", "non-actor-callers",
-                      "caller-panics-mid-ask-then-reverse"], "shape")
+                      "caller-panics-mid-ask-then-reverse", "timeout-while-callee-busy-then-reverse"], "shape")
     s = Sim(prog, ex)
     w = s.w
     A, B = Script("A"), Script("B")
@@ -1149,6 +1150,12 @@ def deadlock_sound(prog, ex, P, tier):
         B.handler_yields = {11: "tick"}
         B.handler_actions = {5: [("ask", "A", 12)]}
         ops = [("ask", "A", 1), ("ask", "B", 5)]
+    elif shape == "timeout-while-callee-busy-then-reverse":
+        # B is inside a handler (5) when A's timed ask arrives and stays QUEUED at B; the ask
+        # times out; still inside 5, B asks A.  The timed-out ask must not count.
+        A.handler_actions = {1: [("ask_t", "B", 11, 3)]}
+        B.handler_actions = {5: [("yield",), ("yield",), ("ask", "A", 12)]}
+        ops = [("tell", "B", 5), ("ask", "A", 1)]
     elif shape == "callee-dies-then-reverse":
         A.handler_actions = {1: [("ask", "B", 11)]}
         B.handler_panics = {11}
@@ -1174,7 +1181,7 @@ def deadlock_sound(prog, ex, P, tier):
         s.client("c2", [("ask", "B", 6), ("ask", "A", 7)], ["A", "B"])
     s.drop_main("A")
     s.drop_main("B")
-    if shape == "ask-times-out-then-reverse":
+    if shape in ("ask-times-out-then-reverse", "timeout-while-callee-busy-then-reverse"):
         ticks = [3]
         # time only passes once the timed ask is in flight (keeps the schedule space small)
         s.extra_actions.append((lambda: ticks[0] > 0 and any(e["ev"] == "action_start" for e in ex.events),
@@ -1185,8 +1192,10 @@ def deadlock_sound(prog, ex, P, tier):
     judge_deadlock_panics(tr, ex, "C15")
     judged = [e for e in tr.ev if e["ev"] == "action_panicked" and "eadlock" in str(e.get("msg"))]
     ex.check("C15", len(dl) <= len(judged), "deadlock panic outside a scripted ask (%s): %s" % (shape, [e.get("msg") for e in dl]))
-    if shape != "non-actor-callers":
+    if shape not in ("non-actor-callers", "timeout-while-callee-busy-then-reverse"):
         # these patterns are acyclic in time: no ask is in flight when the reverse one starts
+        # (in the busy-callee shape the reverse ask may also start BEFORE the timeout fired: then
+        # the cycle is real and the panic justified - the trace oracle above tells the two apart)
         ex.check("C15", not dl or any(e["ev"] == "known_finding" for e in tr.ev), "deadlock panic without a cycle of unanswered asks (%s): %s" % (shape, [e.get("msg") for e in dl]))
     all_done = all(o["done"] is not None for o in tr.ops().values()) and all(t.state != "running" for t in w.tasks)
     if all_done:
@@ -1201,7 +1210,11 @@ def has_path_fn(prog, ex, P, tier):
     """function level: has_path(G, from, to) == "to is reachable from `from` in >= 1 steps" for
     EVERY functional graph over N keys (presence and target of every key symbolic) and every
     from/to; decided by z3 on every path of the interpreted loop"""
-    N = 3 if tier == "quick" else 4
+    # actor ids are arbitrary u64: the key universe contains ids that collide modulo 64 / 128 (a
+    # hash, bitmask or bloom-filter style shortcut in the walk shows up as a wrong answer)
+    KEYS = [1, 2, 65] if tier == "quick" else [1, 2, 65, 130]
+    SINK = 4099                                    # an id that waits for nobody
+    N = len(KEYS)
     s = Sim(prog, ex)
     w, it = s.w, s.it
     m = w.HMap()
@@ -1229,14 +1242,16 @@ def has_path_fn(prog, ex, P, tier):
             rest = split_top(t[1:-1])[1:]
             return Agg("tuple", "", [ident] + [IntV(ex.sym("aux_%s_%d" % (ident.fields[0].v, j), 64), 64) for j in range(len(rest))])
         raise Unsupported("wait-for graph value type %r (has_path_fn builds Identity / (Identity, ..) values)" % vty)
-    for k in range(1, N + 1):
+    def member(x):
+        return z3.Or([x == kk for kk in KEYS + [SINK]])
+    for k in KEYS:
         pres[k] = z3.Bool("present_%d" % k)
         tgt[k] = ex.sym("target_%d" % k, 64)
-        ex.assume(z3.And(z3.UGE(tgt[k], 1), z3.ULE(tgt[k], N + 1)))      # N+1 = an id that waits for nobody
+        ex.assume(member(tgt[k]))
         m.sym.append((k, pres[k], mkval(Agg("struct", "Identity", [IntV(tgt[k], 64), "T"]))))
     frm = ex.sym("from", 64)
     to = ex.sym("to", 64)
-    ex.assume(z3.And(z3.UGE(frm, 1), z3.ULE(frm, N + 1), z3.UGE(to, 1), z3.ULE(to, N + 1)))
+    ex.assume(z3.And(member(frm), member(to)))
     r = it.call_path("has_path", [Ref(Cell(m, "graph"), (), False), IntV(frm, 64), IntV(to, 64)])
 
     # reference: iterate the partial function N times
@@ -1244,7 +1259,7 @@ def has_path_fn(prog, ex, P, tier):
         """(defined, next)"""
         d = z3.BoolVal(False)
         nx = z3.BitVecVal(0, 64)
-        for k in range(1, N + 1):
+        for k in KEYS:
             hit = z3.And(x == k, pres[k])
             d = z3.Or(d, hit)
             nx = z3.If(hit, tgt[k], nx)
